@@ -485,7 +485,7 @@ def gen_smap(rng):
         outs.append(dict(expr=e, axis=axis, ndim=nd_out))
     # how the flat argument leaves are grouped into positional arguments (pytree-valued in_axes)
     group = rng.choice(["flat", "flat", "nested"])
-    return dict(op="smap", args=args, outs=outs, len=L, group=group, int_axes=rng.random() < 0.15)
+    return dict(op="smap", args=args, outs=outs, len=L, group=group, int_axes=rng.random() < 0.15, jit=rng.random() < 0.3)
 
 
 def _eval_expr(e, leaves):
@@ -538,7 +538,10 @@ def real_maps(case):
     res = {}
     for name, m in (("smap", smap), ("lmap", lmap), ("vmap", jax.vmap)):
         try:
-            r = m(f, in_axes=in_axes, out_axes=out_axes)(*pos)
+            g = m(f, in_axes=in_axes, out_axes=out_axes)
+            if case.get("jit"):
+                g = jax.jit(g)          # the maps are used under an outer jit by optimize_kl (kl_map / residual_map)
+            r = g(*pos)
             res[name] = [_arr(x) for x in r]
         except Exception as e:
             res[name] = {"error": type(e).__name__}
@@ -553,7 +556,7 @@ def oracle_smap(case):
     for name in ("smap", "lmap"):
         if r[name] != r["vmap"]:
             return (f"{name}(f, in_axes, out_axes) differs from jax.vmap(f, in_axes, out_axes)",
-                    dict(op="smap", map=name, none_out=none_out,
+                    dict(op="smap", map=name, none_out=none_out, jit=bool(case.get("jit")),
                          what="raised" if isinstance(r[name], dict) else "value"))
     return None
 
@@ -779,6 +782,7 @@ def run(ctx):
                                 nontrivial=any(a["axis"] not in (0,) for a in c["args"]) or any(o["axis"] != 0 for o in c["outs"]))
                 ctx.stat("smap:none-out" if any(o["axis"] is None for o in c["outs"]) else "smap:all-out-mapped")
                 ctx.stat("smap:" + c["group"])
+                ctx.stat("smap:jit" if c.get("jit") else "smap:eager")
                 if any(a["axis"] is not None and a["axis"] < 0 for a in c["args"]):
                     ctx.stat("smap:negative-in-axis")
                 impl, m = r["vmap"], m.get("vmap")
